@@ -27,6 +27,11 @@ binding: spec -> code: TLC prints every case (CASE lines); verif/c19_helpers.Tls
          without certificate, a client with an untrusted certificate and a server with an untrusted certificate
          (fixtures/c19/other_*.pem) are rejected.  soap client clause: the real SoapClient / SoapClientAsync build a
          https connection with exactly the given context iff a context is given (no connection is opened).
+second life: after a failed first connect the same consumer object is stopped and started again (record "retry");
+         for every configuration with a session a second trace stops after "subscribe", turns the environment into
+         the downgrade environment and restarts the consumer (record "restart").  Tls.tla models both (Retry,
+         RestartHostile; the laws hold in every life), TlsTrace judges the second start_all with the obligations of
+         the first (an enforcing consumer must not have forgotten that it enforces).
 not demanded: anything of a party without TLS (consumer: not enforced) except the documented rule for the optional
          consumer (plaintext only after an SSL error on the first connect); check_hostname of the client context
          (recorded only); that a phase succeeds (only that nothing is advertised / contacted in plaintext).
@@ -129,10 +134,24 @@ def drive_cfg(payload: dict) -> tuple[list[dict], int]:
         xaddrs += [(x, 'xaddr') for p in pub for x in p[3]]
         api_adv = [{'party': 'provider', 'kind': 'xaddr', 'scheme': urlparse(x).scheme, 'url': x,
                     'wellformed': '://' in x, 'src': src} for x, src in xaddrs]
+        def again(name):
+            """Second life of the same consumer object: stop_all, then start_all once more."""
+            tp.stop_consumer()
+            err2 = None
+            try:
+                tp.start_consumer()
+            except Exception as ex:  # noqa: BLE001  recorded; what matters is how connections were attempted
+                err2 = ex
+            wires2, events2, _ = rec.window()
+            adv2, _ = rec.adv_of(wires2)
+            trace.append(mk_rec(name, err2 is None, adv2, rec.ev_of(events2),
+                                info={'exc': type(err2).__name__, 'msg': str(err2)[:200]} if err2 else None))
+
         if err is not None:
             adv, _ = rec.adv_of(wires)
             trace.append(mk_rec('metadata', False, api_adv + adv, rec.ev_of(events),
                                 info={'exc': type(err).__name__, 'msg': str(err)[:200]}))
+            again('retry')
             return trace, rec.calls
         # split the start_all window by what each request is
         by_phase = {ph: {'wires': [], 'ev': []} for ph in PHASES[:3]}
@@ -154,6 +173,12 @@ def drive_cfg(payload: dict) -> tuple[list[dict], int]:
                         adv.append({'party': owner, 'kind': 'wsdl_doc', 'scheme': scheme, 'url': url,
                                     'wellformed': url.startswith(scheme + '://')})
             trace.append(mk_rec(ph, True, adv, rec.ev_of(by_phase[ph]['ev'])))
+        if payload.get('restart'):
+            # the environment turns hostile (every TLS handshake fails, everything answers plaintext) and the
+            # application restarts the consumer
+            tp.net.downgrade = True
+            again('restart')
+            return trace, rec.calls
         subs = list(consumer.subscription_mgr.subscriptions.values())
         state_sub = next((s for s in subs if s._hosted_service_path.endswith('/StateEvent')), None)  # noqa: SLF001
         set_sub = next((s for s in subs if s._hosted_service_path.endswith('/Set')), None)  # noqa: SLF001
@@ -361,7 +386,7 @@ def drive_client(payload: dict) -> dict:
 
 # --------------------------------------------------------------------------- TLC side
 ACTIONS = ['ConnectTls', 'ConnectPlain', 'Fallback', 'ConnectFails', 'Hosted', 'Subscribe', 'Probe',
-           'NotifyDelivered', 'NotifyFails', 'Renew', 'Operate', 'Unsubscribe', 'StopWithEnd', 'StopSilent']
+           'NotifyDelivered', 'NotifyFails', 'Renew', 'Operate', 'Unsubscribe', 'StopWithEnd', 'StopSilent', 'Retry', 'RestartHostile']
 
 
 def cases_of(run, cfg: str, n_cfg: int):
@@ -474,7 +499,9 @@ def check(run, replay_path=None):
     # ---- spec -> code: the model is checked (laws, coverage of every action) and enumerates the cases
     n_cfg = run.pick(96, 384)
     kinds = cases_of(run, run.pick('Tls.cfg', 'Tls_thorough.cfg'), n_cfg)
-    payloads = kinds['cert'] + kinds['client'] + kinds['cfg']
+    # second traces: a session that is restarted after the environment has turned hostile
+    restarts = [dict(p, restart=True) for p in kinds['cfg'] if p['c']['peer'] == 'yes' and p['mode'] in ('tls', 'plain')]
+    payloads = kinds['cert'] + kinds['client'] + kinds['cfg'] + restarts
     traces, calls = [], 0
     t0 = time.time()
     for p in payloads:
@@ -487,11 +514,15 @@ def check(run, replay_path=None):
     # ---- what was exercised (vacuity)
     cfg_traces = [(p, t) for p, t in zip(payloads, traces) if p['c']['kind'] == 'cfg']
     stats = {'configurations': len(cfg_traces),
-             'sessions_established': sum(1 for _, t in cfg_traces if len(t) > 3),
-             'first_connect_failed': sum(1 for _, t in cfg_traces if len(t) == 3),
+             'sessions_established': sum(1 for _, t in cfg_traces if len(t) > 4),
+             'first_connect_failed_then_retried': sum(1 for _, t in cfg_traces if t[2]['phase'] == 'retry'),
+             'sessions_restarted_in_hostile_environment': sum(1 for _, t in cfg_traces if t[-2]['phase'] == 'restart'),
+             'plaintext_connects_in_second_life': sum(1 for _, t in cfg_traces for r in t[1:]
+                                                      if r['phase'] in ('retry', 'restart')
+                                                      for e in r['ev'] if e['ev'] == 'connect' and e['ctx'] == 'none'),
              'fallback_to_plaintext_after_sslerror': sum(1 for p, _ in cfg_traces
                                                          if p['c']['ctls'] == 'optional' and p['mode'] == 'plain'),
-             'tls_provider_facing_plaintext_sink': sum(1 for p, t in cfg_traces if len(t) > 3
+             'tls_provider_facing_plaintext_sink': sum(1 for p, t in cfg_traces if len(t) > 4
                                                        and p['c']['ptls'] == 'on' and not p['delivers']),
              'phase_records': sum(len(t) - 2 for _, t in cfg_traces),
              'advertised_addresses_seen': sum(len(r['adv']) for _, t in cfg_traces for r in t[1:]),
@@ -515,7 +546,7 @@ def check(run, replay_path=None):
     for p, t in zip(payloads, traces):
         c = p['c']
         if c['kind'] == 'cfg':
-            run.distinct_traces.add((json.dumps(c, sort_keys=True),
+            run.distinct_traces.add((json.dumps(c, sort_keys=True), bool(p.get('restart')),
                                      tuple((r['phase'], r['reached'], tuple((e['party'], e['ev'], e['ctx'], e['out'])
                                                                             for e in r['ev'])) for r in t[1:])))
         else:
